@@ -450,11 +450,12 @@ static int proto_setup(Tier t, const std::string &job)
 	int l = 4, tg = 1;
 	sscanf(job.c_str(), "proto:idlen=%d:target=%d", &l, &tg);
 	g_idlen = l; g_target = tg != 0;
-	g_R = t == Quick ? 2 : 4; g_maxref = t == Quick ? 2 : 3;
+	// quick: two requests (three for two of the jobs), two metatype references; thorough: four requests, three references
+	g_R = t == Quick ? ((l == 1 || l == 5) && tg ? 3 : 2) : 4; g_maxref = t == Quick ? 2 : 3;
 	if (getenv("C12_R")) g_R = atoi(getenv("C12_R"));            // development only: bound experiments
 	if (getenv("C12_REFS")) g_maxref = atoi(getenv("C12_REFS"));
 	if (getenv("C12_DEPTH")) return atoi(getenv("C12_DEPTH"));
-	return t == Quick ? 12 : 24;
+	return t == Quick ? 16 : 24;
 }
 static void id_body(Run &r, ACnt &c, const std::string &job, const std::vector<uint64_t> &ids, Ctx &x)
 {
